@@ -88,7 +88,8 @@ static uint64_t decode_imms(int imms, int immr, int sf)
 
   // Create bit battern.
   int ones_count = (imms & (size - 1)) + 1;
-  int pattern = (1 << ones_count) - 1;
+  uint64_t pattern =
+    (ones_count == 64) ? ~(uint64_t)0 : (((uint64_t)1 << ones_count) - 1);
 
   // Repeat bit pattern.
   for (int n = 0; n < 64; n += size)
@@ -99,7 +100,7 @@ static uint64_t decode_imms(int imms, int immr, int sf)
   // Do rotate right.
   if (immr != 0)
   {
-    int r = imm & ((1 << immr) - 1);
+    uint64_t r = imm & (((uint64_t)1 << immr) - 1);
     imm = imm >> immr;
     imm |= r << (64 - immr);
   }
